@@ -608,7 +608,7 @@ variable {α : Type}
 
 /-- a file that cannot be opened, or cannot be read to its end — a gzip stream cut short anywhere from
 its third byte on — never loads, whichever of the two files it is and however the counts are given:
-a load error, never a shorter network.  (Before /repo 01751c8 and 62e8488 a gzip file cut short in its
+a load error, never a shorter network.  (Before /repo 81bf7f8 and 5e9f339 a gzip file cut short in its
 header, or before its first block decoded, was loaded as a list without rows.) -/
 theorem unreadable_file_never_loads (ef : CsvFile (Edge α)) (vf : CsvFile (Vertex α)) (nE nV : Option Nat)
     (h : ef.present = false ∨ vf.present = false) (g : Graph α) : graphFromFiles ef vf nE nV ≠ .ok g := by
@@ -618,7 +618,7 @@ theorem unreadable_file_never_loads (ef : CsvFile (Edge α)) (vf : CsvFile (Vert
   · rw [h] at pe; exact absurd pe (by simp)
   · rw [h] at pv; exact absurd pv (by simp)
 
-/-- a file without any content never loads either, also with explicit counts (before /repo d0959e5 it
+/-- a file without any content never loads either, also with explicit counts (before /repo ff5c317 it
 was an empty list then) -/
 theorem empty_file_never_loads (ef : CsvFile (Edge α)) (vf : CsvFile (Vertex α)) (nE nV : Option Nat)
     (h : ef.hasHeader = false ∨ vf.hasHeader = false) (g : Graph α) : graphFromFiles ef vf nE nV ≠ .ok g := by
